@@ -153,7 +153,22 @@ pub fn check_inv(inv : &Inv, runner : &Runner, is_last : bool, mut stats : Optio
         for v in v2
         {
             if !v.sig.starts_with("C02:unnecessary-run") { continue; }
-            let about_untainted = info.obliged_rules.iter().any(|r| !tainted.contains(r) && v.detail.contains(&format!("rule {} (", r)));
+            // A rule with an undeclared input is restored to what its *record* says, which is not
+            // what the reference model (which sees the undeclared input) expects of it: bytes that
+            // such a rule ever recorded may be taken from the cache by it, so a rule that wanted
+            // the same bytes back has no claim on them.
+            let tainted_bytes : BTreeSet<Vec<u8>> = tainted.iter().filter_map(|i| runner.record.get(&inv.rules[*i].identity()))
+                .flat_map(|by| by.values()).flat_map(|outs| outs.iter().map(|(_, b)| b.clone())).collect();
+            let contested = |r : &usize| -> bool
+            {
+                let srcs = match inv.model.as_ref().ok().and_then(|m| m.source_contents.get(r)) { Some(s) => s, None => return false };
+                match runner.record.get(&inv.rules[*r].identity()).and_then(|by| by.get(srcs))
+                {
+                    Some(rec) => rec.iter().any(|(_, b)| tainted_bytes.contains(b)),
+                    None => false,
+                }
+            };
+            let about_untainted = info.obliged_rules.iter().any(|r| !tainted.contains(r) && !contested(r) && v.detail.contains(&format!("rule {} (", r)));
             if about_untainted
             {
                 out.push(Violation{ prop : "C17", sig : "C17:unrelated-rule-forgotten".to_string(), detail : v.detail });
